@@ -8,6 +8,7 @@
   widths        E1  (b, w, nrounds) of a live Keccak object for each of the seven permutation widths
   sha3Params / shakeParams  E1  (n, r, c, outlen) of live SHA3(n) objects; SHAKE capacities read from the
                 objects the wrappers build (traced through Keccak.__init__)
+  singletons    E1  (n, b, r, c, outlen, duplexing) of the module-level objects keccak_224 … keccak_512
 """
 import ast, inspect
 from extract import header, footer, lean_nat_list, lean_nat_table
@@ -76,6 +77,11 @@ def keccakg(repo):
         S.SHA3.__call__(S.SHA3(256), b'')
     finally:
         K.Keccak.__call__ = orig_call
+    single = []
+    for n in (224, 256, 384, 512):
+        k = getattr(K, 'keccak_%d' % n)
+        assert type(k) is K.Keccak and k.c >= 0
+        single.append([n, k.b, k.r, k.c, k.outlen, int(bool(k.duplexing))])
     # shake rows: [r, c, outlen, duplexing, suffix byte, suffix bit count]; last row = SHA3 suffix
     assert len(shake) == 3
     return (header('KeccakG', ['crysp/keccak.py', 'crysp/sha.py'])
@@ -85,6 +91,7 @@ def keccakg(repo):
             + lean_nat_table('widths', widths)
             + lean_nat_table('sha3Params', sha3)
             + lean_nat_table('suffixProbe', shake)
+            + lean_nat_table('singletons', single)
             + footer('KeccakG'))
 
 
